@@ -9,6 +9,7 @@ from ..engine.mutate import Mutant, Variant, in_function, replace_once
 from ..engine.runner import Rule
 from ..engine.source import AnalysisError
 from .C05 import TxModel
+from . import shared
 from .common import callee_name, calls_in
 
 EXPLANATION = (
@@ -170,6 +171,7 @@ def rule_session_discipline(ctx):
         nobody = [i for t, v, i in tests if t == "held is not None" and v is False]
         if k:
             ctx.check((bool(nested) and nested[0] < k[0]) or (bool(nobody) and nobody[0] < k[0]), aq.fq, "re-entry by the holding task is rejected before waiting for the lock", "a nested request by the holder deadlocks instead of raising", "checked first")
+    shared.check_rollback_possible(ctx, "a rejected request leaves the rows it wrote there (e.g. the trigger-maintained step_need_count mirror) behind")
     ex = ctx.prog.func("sqlite3.DBSession._require_transaction_con")
     ctx.check("held.task is not asyncio.current_task()" in ast.unparse(ex.node) and "not held.opened_transaction" in ast.unparse(ex.node), ex.fq, "execute() requires the calling task's own open transaction", "statements can run on another task's transaction", "checked")
     run = ctx.prog.func("sqlite3.DBSession._run")
@@ -223,6 +225,7 @@ RULES = [
 ]
 
 MUTANTS = [
+    Mutant("temp-schema-without-journal", "sqlite3.py", in_function("connect", replace_once('    con.execute("PRAGMA foreign_keys = ON")\n', '    con.execute("PRAGMA foreign_keys = ON")\n    con.execute("PRAGMA temp.journal_mode = OFF")\n')), ("R-C15-4",)),
     Mutant("gather-with-grace", "rpc.py", in_function("RPCServerConnection._recv_loop", replace_once("            await asyncio.gather(*self._tasks, return_exceptions=True)\n", "            try:\n                async with asyncio.timeout(5.0):\n                    await asyncio.gather(*self._tasks, return_exceptions=True)\n            except TimeoutError:\n                pass\n")), ("R-C15-5",)),
     Mutant("two-mutating-regions", "director.py", in_function("DirectorHandler.declare_static", lambda s: s.replace("            to_check.update(self.workflow.declare_static_files(creator, file_paths))\n", "        async with self.db:\n            to_check.update(self.workflow.declare_static_files(creator, file_paths))\n", 1) if "to_check.update(self.workflow.declare_static_files(creator, file_paths))" in s else None), ("R-C15-1",)),
     Mutant("submit-inside-region", "director.py", in_function("DirectorHandler.define_step", lambda s: s.replace("        self._submit_to_check(to_check)\n", "", 1).replace("                duration=duration,\n            )\n", "                duration=duration,\n            )\n            self._submit_to_check(to_check)\n", 1) if "self._submit_to_check(to_check)" in s else None), ("R-C15-1",)),
